@@ -612,7 +612,35 @@ func (g *FnGen) applyGhostUpdate(gu GhostUpdate, env *Env) {
 	for _, e := range gu.Vals {
 		vals = append(vals, env.tr(e))
 	}
+	// all right-hand sides and keys are evaluated in the state before the update (simultaneous assignment)
+	var keys []*Val
+	for _, n := range gu.Names {
+		if i := strings.Index(n, "["); i > 0 && strings.HasSuffix(n, "]") {
+			ke, err := ParseExpr(n[i+1 : len(n)-1])
+			if err != nil {
+				g.unsupported("ghost-update: bad key in %s", n)
+			}
+			k := env.tr(ke)
+			keys = append(keys, &k)
+		} else {
+			keys = append(keys, nil)
+		}
+	}
 	for i, n := range gu.Names {
+		if keys[i] != nil {
+			// ghost function updated at one point: name[k] = e
+			n = n[:strings.Index(n, "[")]
+			fam, ok := g.ghost[n]
+			mt, isMap := typeUnder(g.ghostType[n]).(*types.Map)
+			if !ok || !isMap {
+				g.unsupported("ghost-update: %s is not a ghost function", n)
+			}
+			k := env.coerceTo(*keys[i], mt.Key())
+			v := env.coerceTo(vals[i], mt.Elem())
+			h := g.heapGet(g.cur, fam, g.famSort[fam])
+			g.heapSet(g.cur, fam, fmt.Sprintf("(store %s 0 (store (select %s 0) %s %s))", h, h, k.T, v.T))
+			continue
+		}
 		fam, ok := g.ghost[n]
 		if !ok {
 			g.unsupported("ghost-update: %s is not a ghost variable", n)
